@@ -164,9 +164,12 @@ class AddCyclicMemoryLayout(RewritePattern):
                 current_stride = current_stride * layout_bound
 
             # fill up empty strides
-            for stride in strides:
+            # (dims that no schedule dim accesses still span their full size)
+            for dim, stride in enumerate(strides):
                 if not len(stride):
-                    stride.append(Stride(current_stride, 1))
+                    dim_size = memref_type.get_shape()[dim]
+                    stride.append(Stride(current_stride, dim_size))
+                    current_stride = current_stride * dim_size
 
             layout = TiledStridedLayout([TiledStride(s) for s in strides]).canonicalize()
             tsl = TiledStridedLayoutAttr(layout)
